@@ -586,6 +586,29 @@ fn independent_to_real(seed: u64, i: u64, base: &str) -> ReplyStats {
 fn real_emissions(seed: u64, i: u64, base: &str) -> ReplyStats {
     let mut st = ReplyStats { findings: vec![], c: Counters::default(), sample: None, hashes: vec![] };
     let mut rng = rng_from(mix3(seed, i, 0xC08A));
+    // strings at the very top of the length range can only travel in a SYN (no budget applies to it): the cluster id
+    // and the node's own id at 65,534 / 65,535 bytes
+    if i % 40 == 7 || i % 40 == 8 {
+        let big = [65_535usize, 65_534, 65_535, 65_533][rng.random_range(0..4)];
+        let (own_len, cl_len) = if i % 40 == 7 { (3, big) } else { (big, 2) };
+        let own = ChitchatId::new(rand_string(&mut rng, own_len, base), 1, addr(7000));
+        let cluster = rand_string(&mut rng, cl_len, base);
+        let s = mk_node(own, &NodeOpts { cluster: cluster.clone(), ..Default::default() });
+        st.sample = Some(json!({"case": i, "own_id_len": own_len, "cluster_id_len": cl_len, "syn_only": true}));
+        match catch(|| {
+            let m = s.cc.verif_create_syn_message();
+            let b = m.serialize_to_vec();
+            (m, b)
+        }) {
+            Ok((m, b)) => {
+                st.c.inc("real_syn");
+                st.c.inc("real_syn_with_string_at_top_of_range");
+                check_emission(&s.cc, &m, &b, &format!("case {i} SYN with a {big}-byte string"), &mut st);
+            }
+            Err(p) => st.findings.push(Finding::new(&["C08"], "wire.emit_panic", format!("case {i}: emitting a SYN whose cluster id / node id is {big} bytes long panicked: {p}"))),
+        }
+        return st;
+    }
     let own_len = [0usize, 1, 5, 255, 256, 16_384, 60_000][rng.random_range(0..7)];
     let own = ChitchatId::new(rand_string(&mut rng, own_len, base), rng.random_range(0..3), if rng.random_bool(0.5) { "[::1]:7000".parse().unwrap() } else { addr(7000) });
     let cluster = { let l = [0usize, 1, 7, 255, 256][rng.random_range(0..5)]; rand_string(&mut rng, l, base) };
